@@ -81,6 +81,10 @@ class Gen:
         if r < 0.74:
             return "{%d: %s}[%d]" % (3, self.expr(d + 1), 3)
         if r < 0.80:
+            if self.rng.random() < 0.3:
+                # a call in the MIDDLE of a chain whose arguments are chains themselves (each argument is a symbol of its own)
+                arg = self.rng.choice(["bx.v", "bx.items[%d]" % self.rng.randrange(3), "bx.get(%s)" % self.atom(), "len(bx.items)", "abs(bx.v)"])
+                return self.rng.choice(["bx.get(%s).real", "bx.get(%s).bit_length()", "abs(%s).real", "bx.get(%s).numerator.real"]) % arg
             return "bx.v" if self.rng.random() < 0.5 else "bx.get(%s)" % self.expr(d + 1)
         if r < 0.86:
             return "bx.items[%s]" % self.rng.choice(["0", "1", "-1"]) if not w or self.rng.random() < 0.5 else "len(bx.items[%s])" % self.rng.choice(["0:2", "1:", "::2", ":"])
@@ -207,7 +211,9 @@ class Gen:
             self.in_loop = saved_loop
             self.in_func -= 1
             self.fglobals = []
-            head = ["def %s(p=%s, *ar, q=1, **kw)%s:" % (name, self.rng.randrange(5), " -> int" if self.rng.random() < 0.3 else "")] if self.rng.random() < 0.4 else ["def %s(p=0):" % name]
+            ann = self.rng.random() < 0.4           # annotated parameters (evaluated at definition time, or kept as text under the future import)
+            head = ["def %s(p%s=%s, *ar%s, q%s=1, **kw)%s:" % (name, ": int" if ann else "", self.rng.randrange(5), ": int" if ann else "", ": bool" if ann else "",
+                                                              " -> int" if self.rng.random() < 0.3 else "")] if self.rng.random() < 0.4 else ["def %s(p%s=0):" % (name, ": int" if ann else "")]
             dec = ["@deco"] if self.rng.random() < 0.35 else []
             call = ["%s = %s(%s) or 0" % (self.rng.choice(self.names), name, self.expr(1))] * self.rng.choice([1, 1, 2])
             return dec + head + self.ind(body) + call
@@ -234,11 +240,14 @@ class Gen:
         if r < 0.96 and w and not self.in_func:
             self.fn += 1
             name = "K%d" % self.fn
-            return (["@deco"] if self.rng.random() < 0.3 else []) + ["class %s(Box):" % name, "    cv = %s" % self.expr(1), "    def m(self):", "        return self.cv + %s" % self.rng.randrange(5),
+            return (["@deco"] if self.rng.random() < 0.3 else []) + ["class %s(Box):" % name] + ([self.rng.choice(['    """kdoc"""', '    """kdoc"""', "    7", "    ..."])] if self.rng.random() < 0.6 else []) + ["    cv = %s" % self.expr(1), "    def m(self):", "        return self.cv + %s" % self.rng.randrange(5),
                     "%s = %s().m()" % (self.rng.choice(self.names), name)]
-        if r < 0.98 and w:
+        if r < 0.975 and w:
             return ["match %s:" % self.atom(), "    case 1:"] + self.ind(self.ind(self.block(depth + 1, 1))) + ["    case [x1, *_]:", "        u = x1", "    case _:"] + self.ind(self.ind(self.block(depth + 1, 1)))
-        if 0.98 <= r < 0.99:
+        if 0.975 <= r < 0.99:
+            if self.rng.random() < 0.4:
+                # a method chain spanning several lines whose LAST call raises: the caller's line in the traceback is that of `.get`
+                return ["u = (bx", "     .get(%s)" % self.atom(), "     .bit_length()", "     .real", '     .__add__(bx.get("s")))' if self.rng.random() < 0.5 else '     .bit_length(1))']
             return ['raise KeyError("k%d")' % self.tick()] if self.rng.random() < 0.5 else ["assert %s, %s" % (self.cond(), self.expr())]
         if r >= 0.99:
             return ["assert %s or True" % self.cond()]
@@ -246,6 +255,14 @@ class Gen:
 
     def program(self, nstmts=None):
         lines = ["a = 1", "b = 2", "c = 3", "d = 4", "bx = Box(5)"]
+        if self.rng.random() < 0.2:
+            lines = ["from __future__ import annotations"] + lines
+        if self.rng.random() < 0.25:
+            # a module docstring, or a constant that merely looks like one (then the future import is no longer at the top: drop it)
+            doc = self.rng.choice(['"""mdoc"""', '"""mdoc"""', "7", "b'x'"])
+            if not doc.startswith('"') and lines[0].startswith("from __future__"):
+                lines = lines[1:]
+            lines = [doc] + lines
         for _ in range(nstmts or self.rng.choice([2, 3, 4, 5])):
             lines += self.stmt(0)
         src = "\n".join(lines) + "\n"
